@@ -200,7 +200,8 @@ def run(ctx):
     import controls
     controls.run(ctx, res, "C15", lambda crate, b, v, bs: rules_for_body(v, bs, None)[0])
     res.analysed["map_loops"] = loops
-    res.floor("map loops", loops, 40)
+    if not getattr(ctx, "degraded", None):
+        res.floor("map loops", loops, 40)
     res.trusted_base = ["rustc nightly MIR construction", "mirfacts extractor", "rules/p_c15.py, rules/skeleton.py"]
     res.assumptions = ["payload objects have no duplicate keys (a map)", "the *set* of reports is order-independent; their order inside an accumulated error may differ",
                        "derived code: per catalogue entry"]
